@@ -130,6 +130,7 @@ def run(tier, seed):
     else:
         os.environ["TZ"] = saved_tz
     time.tzset()
+    realclock.boundary_crossed_while_running(chk)
     # 3. validate_certificate_chain helper directly: implementation vs reference oracle
     from webauthn.helpers.validate_certificate_chain import validate_certificate_chain
     for i in range(20 if quick else 200):
